@@ -26,14 +26,14 @@ namespace SV.Consistency
 open SV.Parser
 
 /-- a C12 lexer token read as a C20 token: the text as characters (one per code point), the quoting flag -/
-def kwTokOfLTok (t : LTok) : SV.Fields.Tok := ⟨t.rs.map fun r => Char.ofNat r.cp, t.quoted⟩
+def kwTokOfLTok (t : LTok) : SV.Fields.Tok := ⟨t.rs.map fun r => Char.ofNat r.cp, t.quoted, t.space⟩
 
 /-- what it means for C12's `EqualFold` oracle to be ASCII folding on a token, for the four keywords of the pipe header -/
 structure KwAsciiOK (t : LTok) : Prop where
-  fields : (t.kw = .fields) ↔ SV.Fields.asciiLower (kwTokOfLTok t).text = "fields".toList
-  except : (t.kw = .except) ↔ SV.Fields.asciiLower (kwTokOfLTok t).text = "except".toList
-  pipe : (t.kw = .pipe) ↔ SV.Fields.asciiLower (kwTokOfLTok t).text = ['|']
-  comma : (t.kw = .comma) ↔ SV.Fields.asciiLower (kwTokOfLTok t).text = [',']
+  fields : (t.kw = .fields) ↔ SV.Fields.foldText (kwTokOfLTok t).text = "fields".toList
+  except : (t.kw = .except) ↔ SV.Fields.foldText (kwTokOfLTok t).text = "except".toList
+  pipe : (t.kw = .pipe) ↔ SV.Fields.foldText (kwTokOfLTok t).text = ['|']
+  comma : (t.kw = .comma) ↔ SV.Fields.foldText (kwTokOfLTok t).text = [',']
 
 /-- **`IsKeyword`: same strings, same case rule, same quoting rule** - C12 `kwIn t [k]` = C20 `isKeyword (conv t) k` for
 `fields`, `except`, `|`, `,`, on every token where the `EqualFold` oracle is ASCII folding (`KwAsciiOK`; true for every
@@ -43,7 +43,7 @@ theorem cons_kw_kwIn_eq_isKeyword (t : LTok) (h : KwAsciiOK t) :
     kwIn t [.except] = SV.Fields.isKeyword (kwTokOfLTok t) "except".toList ∧
     kwIn t [.pipe] = SV.Fields.isKeyword (kwTokOfLTok t) ['|'] ∧
     kwIn t [.comma] = SV.Fields.isKeyword (kwTokOfLTok t) [','] := by
-  have key : ∀ (k : KW) (s : List Char), ((t.kw = k) ↔ SV.Fields.asciiLower (kwTokOfLTok t).text = s) →
+  have key : ∀ (k : KW) (s : List Char), ((t.kw = k) ↔ SV.Fields.foldText (kwTokOfLTok t).text = s) →
       kwIn t [k] = SV.Fields.isKeyword (kwTokOfLTok t) s := by
     intro k s hk
     unfold kwIn SV.Fields.isKeyword
@@ -52,8 +52,8 @@ theorem cons_kw_kwIn_eq_isKeyword (t : LTok) (h : KwAsciiOK t) :
     cases t.quoted
     · by_cases hkw : t.kw = k
       · simp [hkw, hk.mp hkw]
-      · have hns : ¬ SV.Fields.asciiLower (kwTokOfLTok t).text = s := fun e => hkw (hk.mpr e)
-        have h1 : (SV.Fields.asciiLower (kwTokOfLTok t).text == s) = false := by simpa using hns
+      · have hns : ¬ SV.Fields.foldText (kwTokOfLTok t).text = s := fun e => hkw (hk.mpr e)
+        have h1 : (SV.Fields.foldText (kwTokOfLTok t).text == s) = false := by simpa using hns
         simp [h1]
         exact hkw
     · simp
@@ -83,10 +83,13 @@ theorem cons_kw_header_prefix (f e : LTok) (rest : List LTok) (hf : KwAsciiOK f)
     unfold skipExcept
     cases hk : kwIn e [.except] <;> simp [hk]
 
-/-! ## FINDINGS: the two models of `parseFieldList` disagree (C12 = Go) -/
+/-! ## FINDINGS (repaired): the two models of `parseFieldList` used to disagree on three reachable query texts (C12 = Go).
+C20's Model/Fields.lean was repaired after this layer found them (tokens now carry `space`, names are composite tokens,
+keywords fold like `strings.EqualFold` incl. U+017F / U+212A); the three statements below now state AGREEMENT on the
+very inputs that were the witnesses, and C20's `fields.parse` channel generates these shapes. -/
 
 /-- 1. `fields a-b` (three adjacent tokens `a`, `-`, `b`, no space): C12 (= Go `parseCompositeToken`) -> one field `a-b`;
-C20 -> three names.  Go: `* | fields a-b` gives `Fields = ["a-b"]`. -/
+C20 (first version) -> three names, now one field as well.  Go: `* | fields a-b` gives `Fields = ["a-b"]`. -/
 theorem cons_kw_fieldList_composite_name_witness :
     let a : Rn := ⟨[97], 97, true, false, false, 97, false⟩
     let m : Rn := ⟨[45], 45, false, false, false, 45, false⟩
@@ -94,24 +97,25 @@ theorem cons_kw_fieldList_composite_name_witness :
     let fl : LTok := ⟨[⟨[102], 102, true, false, false, 102, false⟩], false, true, .fields⟩
     let toks : List LTok := [fl, ⟨[a], false, true, .none⟩, ⟨[m], false, false, .none⟩, ⟨[b], false, false, .none⟩]
     pipeFields toks = .ok (⟨false, [[97, 45, 98]]⟩, []) ∧
-    SV.Fields.parsePipeFields [⟨"fields".toList, false⟩, ⟨['a'], false⟩, ⟨['-'], false⟩, ⟨['b'], false⟩]
-      = some (false, [['a'], ['-'], ['b']], []) := by decide
+    SV.Fields.parsePipeFields [⟨"fields".toList, false, true⟩, ⟨['a'], false, true⟩, ⟨['-'], false, false⟩, ⟨['b'], false, false⟩]
+      = some (false, [['a', '-', 'b']], []) := by decide
 
-/-- 2. `fields $`: C12 (= Go, "unexpected symbol") rejects, C20 accepts the name `$` -/
+/-- 2. `fields $`: C12 (= Go, "unexpected symbol") rejects; C20's first version accepted the name `$`, now rejects too -/
 theorem cons_kw_fieldList_symbol_name_witness :
     let d : Rn := ⟨[36], 36, false, false, false, 36, false⟩
     let fl : LTok := ⟨[⟨[102], 102, true, false, false, 102, false⟩], false, true, .fields⟩
     pipeFields [fl, ⟨[d], false, true, .none⟩] = .err ∧
-    SV.Fields.parsePipeFields [⟨"fields".toList, false⟩, ⟨['$'], false⟩] = some (false, [['$']], []) := by decide
+    SV.Fields.parsePipeFields [⟨"fields".toList, false, true⟩, ⟨['$'], false, true⟩] = none := by decide
 
 /-- 3. `fieldſ a` (long s, U+017F): Go's `EqualFold` says keyword `fields` (C12: oracle answer `.fields` -> a pipe);
-C20's ASCII folding says no keyword -> parse error.  (`KwAsciiOK` fails for this token: it is exactly the excluded case.) -/
+C20's first version (ASCII folding) said no keyword -> parse error; now `foldChar` maps U+017F to `s`.  (`KwAsciiOK` fails for this token: it is exactly the excluded case.) -/
 theorem cons_kw_isKeyword_unicode_fold_witness :
     let a : Rn := ⟨[97], 97, true, false, false, 97, false⟩
     let t : LTok := ⟨[⟨[0xC5, 0xBF], 0x17F, true, false, false, 0x17F, false⟩], false, true, .fields⟩
     pipeFields [t, ⟨[a], false, true, .none⟩] = .ok (⟨false, [[97]]⟩, []) ∧
-    SV.Fields.isKeyword ⟨['f', 'i', 'e', 'l', 'd', Char.ofNat 0x17F], false⟩ "fields".toList = false ∧
-    SV.Fields.parsePipeFields [⟨['f', 'i', 'e', 'l', 'd', Char.ofNat 0x17F], false⟩, ⟨['a'], false⟩] = none := by decide
+    SV.Fields.isKeyword ⟨['f', 'i', 'e', 'l', 'd', Char.ofNat 0x17F], false, true⟩ "fields".toList = true ∧
+    SV.Fields.parsePipeFields [⟨['f', 'i', 'e', 'l', 'd', Char.ofNat 0x17F], false, true⟩, ⟨['a'], false, true⟩] =
+      some (false, [['a']], []) := by decide
 
 /-- where they agree - the shape C20's harness generates: space-separated single composite tokens, optional commas -/
 theorem cons_kw_fieldList_simple_agree_example :
@@ -121,7 +125,7 @@ theorem cons_kw_fieldList_simple_agree_example :
     let ex : LTok := ⟨[⟨[101], 101, true, false, false, 101, false⟩], false, true, .except⟩
     let cm : LTok := ⟨[⟨[44], 44, false, false, false, 44, false⟩], false, false, .comma⟩
     pipeFields [fl, ex, ⟨[a], false, true, .none⟩, cm, ⟨[b], true, true, .none⟩] = .ok (⟨true, [[97], [98]]⟩, []) ∧
-    SV.Fields.parsePipeFields [⟨"fields".toList, false⟩, ⟨"except".toList, false⟩, ⟨['a'], false⟩, ⟨[','], false⟩, ⟨['b'], true⟩]
+    SV.Fields.parsePipeFields [⟨"fields".toList, false, true⟩, ⟨"except".toList, false, true⟩, ⟨['a'], false, true⟩, ⟨[','], false, false⟩, ⟨['b'], true, true⟩]
       = some (true, [['a'], ['b']], []) := by decide
 
 /-! OPEN (time box): the general agreement on the simple domain.  Intended statement:
